@@ -131,6 +131,7 @@ def check_dispatch_model(ctx, sc):
                 'PROPERTY RankIncreases\nPROPERTY Terminates\nCHECK_DEADLOCK FALSE\n')
     r = tlc.run(os.path.join(tlc.SPEC, 'DecoderSM.tla'), sc.file('MC_sm.cfg'), sc, timeout=3000, coverage=True)
     ctx.add_tlc('DecoderSM dispatch machine (depth %d, 2 members; safety + termination under weak fairness)' % depth, r)
+    ctx.require_actions(r, ['Enter', 'Redispatch', 'EooFound', 'Step', 'Exit', 'Raise'], 'DecoderSM')
     if not r.ok:
         raise core.Machinery('DecoderSM model check failed: %s %s\n%s' % (r.violated, r.errors[:3], r.out[-1500:]))
 
